@@ -314,7 +314,7 @@ class Ctx:
         self.outputs[name] = val
 
     def model_values(self, model=None):
-        m = model or self.s.model()
+        m = model if model is not None else self.s.model()
         out = {}
         for k, v in self.inputs.items():
             mv = m.eval(v, model_completion=True)
